@@ -3,6 +3,7 @@ package c18
 import (
 	"encoding/binary"
 	"fmt"
+	"io"
 	"net"
 	"time"
 
@@ -58,7 +59,8 @@ func runNBRandom(w *rt.World, res *hx.Result, kind int) *hx.Violation {
 		clN[c] = 1 + hx.G(maxReqs)
 	}
 	nClients := 2 + hx.G(maxClients-1)
-	flood := hx.G(4) == 0 // client 0 sends a burst of up to 40 datagrams
+	shareHosts := hx.G(3) == 0 // clients 2k and 2k+1 sit on the same host (several connections from one address)
+	flood := hx.G(4) == 0      // client 0 sends a burst of up to 40 datagrams
 	floodN := 8 + hx.G(33)
 	churnOn := hx.G(3) != 0
 	churnRounds := 1 + hx.G(3)
@@ -85,6 +87,9 @@ func runNBRandom(w *rt.World, res *hx.Result, kind int) *hx.Violation {
 	idc := uint16(0x1000 + hx.G(0x4000))
 	for c := 0; c < nClients; c++ {
 		cl := &nbClient{idx: c, host: fmt.Sprintf("10.0.1.%d", c+1), abortAt: -1, ioDone: &rt.Flag{}, release: release}
+		if shareHosts {
+			cl.host = fmt.Sprintf("10.0.1.%d", c/2+1)
+		}
 		if c == 0 {
 			cl.trigger, cl.triggerAt = stopTrigger, stopAfterK
 		}
@@ -93,6 +98,7 @@ func runNBRandom(w *rt.World, res *hx.Result, kind int) *hx.Violation {
 		cl.silent = cl.tcp && clLinger[c] == 1
 		cl.noread = cl.linger && !cl.silent && clWindow[c] >= 2                 // pipelines its requests, never reads a response, keeps the connection open
 		cl.paced = cl.tcp && !cl.linger && clLinger[c] == 2 && clWindow[c] <= 1 // one request every 12 s on one connection
+		cl.stall = cl.tcp && !cl.linger && clLinger[c] == 3 && clWindow[c] >= 2 // first byte of a frame, 31 s pause, the rest
 		nreq := clN[c]
 		if flood && c == 0 {
 			nreq = floodN
@@ -121,7 +127,7 @@ func runNBRandom(w *rt.World, res *hx.Result, kind int) *hx.Violation {
 			cl.reqs = append(cl.reqs, &nbReq{id: idc, bytes: b, sig: stripID(b), tcp: cl.tcp, churn: churnQ})
 			cl.gaps = append(cl.gaps, g.gap)
 		}
-		if cl.tcp && clAbort[c] == 0 && !cl.linger && !cl.paced {
+		if cl.tcp && clAbort[c] == 0 && !cl.linger && !cl.paced && !cl.stall {
 			total := 0
 			for _, r := range cl.reqs {
 				total += 2 + len(r.bytes)
@@ -381,6 +387,10 @@ func runNBRandom(w *rt.World, res *hx.Result, kind int) *hx.Violation {
 					Msg: fmt.Sprintf("client %d received %d responses for request %#04x although the network duplicated nothing in this run", cl.idx, seen[id], id)}
 			}
 		}
+		if cl.stall && cl.silentOpen && !stoppedEarly && w.Stats.TimeSkips == 0 {
+			return &hx.Violation{Class: "no_response", Key: sysName + "/stalled-frame",
+				Msg: fmt.Sprintf("tcp client %d sent the first byte of a frame, paused 31 s, then sent the rest and %d complete requests: the server neither closed the connection nor answered (%d of %d answers after 20 s of silence) -- its framing is out of step with the stream", cl.idx, len(cl.reqs), len(cl.got), len(cl.reqs))}
+		}
 		// (a stalled-task fault can delay the client itself past the server's 30 s idle timeout: only judged without it)
 		if cl.paced && !stoppedEarly && w.Stats.TimeSkips == 0 && len(cl.got) < len(cl.reqs) {
 			return &hx.Violation{Class: "no_response", Key: sysName + "/long-lived-connection",
@@ -520,6 +530,40 @@ func tcpClient(cl *nbClient, window int) {
 		c.Write(stream[:cl.abortAt])
 		if cl.abortAt%2 == 0 {
 			simnet.Abort(c)
+		}
+		return
+	}
+	if cl.stall {
+		// One byte of the first frame's length prefix, then silence for longer than the server's read timeout, then
+		// everything else. The server may give up on the connection (EOF) or answer every request correctly; what it
+		// must not do is keep the connection open and leave complete requests unanswered.
+		rt.Probe(PTCPStalledPrefix)
+		c.SetDeadline(time.Unix(rt.EpochUnix, 0).Add(time.Duration(rt.Now() + 120e9)))
+		if _, err := c.Write(stream[:1]); err != nil {
+			return
+		}
+		rt.SleepUntil(rt.Now() + 31e9)
+		if _, err := c.Write(stream[1:]); err != nil {
+			cl.closedByServer = true
+			return
+		}
+		c.SetDeadline(time.Unix(rt.EpochUnix, 0).Add(time.Duration(rt.Now() + 20e9)))
+		for len(cl.got) < len(cl.reqs) {
+			var l [2]byte
+			if _, err := io.ReadFull(c, l[:]); err != nil {
+				if ne, ok := err.(net.Error); ok && ne.Timeout() {
+					cl.silentOpen = true // still connected, nothing came for 20 s
+				} else {
+					cl.closedByServer = true
+				}
+				return
+			}
+			b := make([]byte, binary.BigEndian.Uint16(l[:]))
+			if _, err := io.ReadFull(c, b); err != nil {
+				cl.closedByServer = true
+				return
+			}
+			cl.got = append(cl.got, b)
 		}
 		return
 	}
